@@ -931,6 +931,11 @@ func execCDag(x *fw.Ctx, c Case) {
 		}
 	}
 	begin := make(chan struct{})
+	// marks[t] is stored by goroutine t after each of its operations and read
+	// by the harness only before it releases a leaked lock: that orders what
+	// the goroutine did inside the abandoned critical section before the
+	// release (no edge between the goroutines themselves)
+	marks := make([]atomic.Int64, len(plan))
 	var wg, ready sync.WaitGroup
 	for t := range plan {
 		wg.Add(1)
@@ -956,6 +961,7 @@ func execCDag(x *fw.Ctx, c Case) {
 						p.got.Value = sl.Show(res)
 					}
 				}
+				marks[t].Add(1)
 			}
 		}(t)
 	}
@@ -972,7 +978,12 @@ func execCDag(x *fw.Ctx, c Case) {
 	select {
 	case <-done:
 	case <-time.After(15 * time.Second):
-		if lockLeaked(g.name) {
+		stuck := true
+		for k := 0; k < 20 && stuck; k++ {
+			stuck = lockLeaked(g.name)
+			time.Sleep(100 * time.Millisecond)
+		}
+		if stuck {
 			x.Fail("dispatch-lock-leak cdag", "class definitions [%s] while %d goroutines call %s: the calls never return; "+
 				"every caller waits for the generic function's lock, which an earlier call did not release", strings.Join(c.Thr[0], " "), len(plan)-1, g.name)
 			for k := 0; k < 100; k++ {
@@ -981,6 +992,9 @@ func execCDag(x *fw.Ctx, c Case) {
 					k = 100
 				case <-time.After(100 * time.Millisecond):
 					if lockLeaked(g.name) {
+						for t := range marks {
+							marks[t].Load()
+						}
 						forceUnlock(g.name)
 					}
 				}
